@@ -1094,6 +1094,8 @@ class Cache:
                 columns = (None, None) + self._disk.store(
                     value, False, key=key
                 )
+                if columns[4] is not None:
+                    self._txn_created.append(columns[4])
                 self._row_insert(db_key, raw, now, columns)
                 self._cull(now, sql, cleanup)
                 return value
@@ -1108,6 +1110,8 @@ class Cache:
                 columns = (None, None) + self._disk.store(
                     value, False, key=key
                 )
+                if columns[4] is not None:
+                    self._txn_created.append(columns[4])
                 self._row_update(rowid, now, columns)
                 self._cull(now, sql, cleanup)
                 cleanup(filename)
